@@ -28,12 +28,12 @@ Definition w_mod : ir_module :=
                                      {| cj_var := Some "r"; cj_call := CMeth "r"; cj_notnone := false |};
                                      {| cj_var := Some "_newline"; cj_call := CExpect "'NEWLINE'"; cj_notnone := false |}];
                          a_locations := false; a_action := "[name, r, _newline]"; a_names := ["name"; "r"; "_newline"];
-                         a_explicit := false |}] |};
+                         a_explicit := false; a_unreachable := false |}] |};
         {| m_name := "r"; m_deco := DMemo; m_type := "Any"; m_comment := ""; m_nullable := false;
            m_without_invalid := false; m_locations := false; m_loop := false; m_gather := false;
            m_alts := [{| a_has_cut := false; a_guard := true;
                          a_conjs := [{| cj_var := None; cj_call := CMeth "invalid_z"; cj_notnone := false |}];
-                         a_locations := false; a_action := "None  # pragma: no cover"; a_names := []; a_explicit := true |}] |}] |}.
+                         a_locations := false; a_action := "None  # pragma: no cover"; a_names := []; a_explicit := true; a_unreachable := false |}] |}] |}.
 Definition w_run (verbose : bool) :=
   let '(o, s) := run KD w_toks verbose true w_mod (fun _ _ => Some VTrue) [] [] 20 "start" init_state in
   (match o with Ok v => truthy v | _ => true end, pos s, fetched s).
@@ -51,7 +51,7 @@ Print Assumptions C04_verbose_refuted.
    succeeds; without it invalid_x runs, x's first alternative returns None and the parse fails. *)
 Definition plain_alt (conjs : list conj) (act : string) (names : list string) : ialt :=
   {| a_has_cut := false; a_guard := false; a_conjs := conjs; a_locations := false; a_action := act; a_names := names;
-     a_explicit := false |}.
+     a_explicit := false; a_unreachable := false |}.
 Definition cjv (x : string) (c : call) : conj := {| cj_var := Some x; cj_call := c; cj_notnone := false |}.
 Definition mk_meth (n : string) (wo : bool) (alts : list ialt) : meth :=
   {| m_name := n; m_deco := DMemo; m_type := "Any"; m_comment := ""; m_nullable := false; m_without_invalid := wo;
@@ -71,11 +71,11 @@ Definition e_mod : ir_module :=
         mk_meth "x" false
           [{| a_has_cut := false; a_guard := true;
               a_conjs := [{| cj_var := None; cj_call := CMeth "invalid_x"; cj_notnone := false |}];
-              a_locations := false; a_action := "None  # pragma: no cover"; a_names := []; a_explicit := true |};
+              a_locations := false; a_action := "None  # pragma: no cover"; a_names := []; a_explicit := true; a_unreachable := false |};
            plain_alt [cjv "name" (CMeth "name")] "name" ["name"]];
         mk_meth "invalid_x" false
           [{| a_has_cut := false; a_guard := false; a_conjs := [cjv "n" (CMeth "name")]; a_locations := false;
-              a_action := "foo ( n )"; a_names := ["n"]; a_explicit := true |}]] |}.
+              a_action := "foo ( n )"; a_names := ["n"]; a_explicit := true; a_unreachable := false |}]] |}.
 Definition e_toks : list rtok := [mkt 1 "k" 0; mkt 1 "w" 2; mkt 4 "" 3; mkt 0 "" 4].
 Definition e_aeval (text : string) (e : env) : option value :=
   if String.eqb text "None  # pragma: no cover" then Some VNone else Some VTrue.
